@@ -392,6 +392,10 @@ def _enum_cases() -> list[dict[str, Any]]:
 _ENUM = _enum_cases()
 
 
+def priority_cases(tier: str) -> list[int]:
+    return [plan(tier)["cases"] - 1]  # the suite run carries a deciding counter: never cut it off at the budget
+
+
 def gen_case(idx: int, seed: int, tier: str) -> Any:
     if idx == plan(tier)["cases"] - 1:
         return {"kind": "suite", "timeout_s": 600}  # the repository's own tests as one more workload, with the contract on
